@@ -25,6 +25,7 @@ import (
 	"time"
 
 	"github.com/jhump/grpctunnel"
+	"github.com/jhump/grpctunnel/tunnelpb"
 	"google.golang.org/grpc"
 	"google.golang.org/grpc/codes"
 	"google.golang.org/grpc/metadata"
@@ -336,6 +337,16 @@ func runStress(t *testing.T, sc stressCfg, seed int64, bw *bufio.Writer, limit t
 			w.logf("PANIC stress tunnel did not come up")
 			return
 		}
+		if sc.cfg.Nested {
+			// a forward tunnel opened over the outer tunnel: its carrier is an RPC of the outer one
+			inner, err := grpctunnel.NewChannel(tunnelpb.NewTunnelServiceClient(cc)).Start(context.Background())
+			if err != nil {
+				w.logf("PANIC stress inner tunnel did not start: %v", err)
+				return
+			}
+			defer inner.Close()
+			cc = inner
+		}
 		var wg sync.WaitGroup
 		for c := 0; c < sc.callers; c++ {
 			c := c
@@ -422,6 +433,10 @@ func TestStress(t *testing.T) {
 		case "bounded":
 			c := cfgs[i%2] // flow control only: no stalled stream may hold up the tunnel
 			runStress(t, stressCfg{name: fmt.Sprintf("stress-bounded-%d-%d", seed, i), cfg: c, cap: 1 + i%3, callers: 12, perC: 8, yield: false}, seed+int64(i), bw, 25*time.Second)
+		case "nested":
+			c := cfgs[i%2]
+			c.Nested = true
+			runStress(t, stressCfg{name: fmt.Sprintf("stress-nested-%d-%d", seed, i), cfg: c, cap: []int{0, 2, 16}[i%3], callers: 6, perC: 8, yield: i%2 == 1}, seed+int64(i), bw, 40*time.Second)
 		case "registry":
 			runRegistryStress(t, fmt.Sprintf("stress-registry-%d-%d", seed, i), seed+int64(i), bw)
 		}
